@@ -156,3 +156,24 @@ B('c06-benign-guard', ['C06', 'C05'], PU, 'if j < N + r: # if gs_stb[j] is not a
 B('c06-benign-guard2', ['C06', 'C05'], PU, 'if j < N + r: # if gs_stb[j] is not an active destabilizer', 'if N + r > j: # if gs_stb[j] is not an active destabilizer', SM)
 B('c06-benign-extend', ['C06', 'C05'], PU, 'if not r <= j < N: # if gs_stb[j] is a standby operator', 'if j < r or j >= N: # if gs_stb[j] is a standby operator', SM)
 B('c06-benign-partner', ['C06', 'C05'], PU, 'q = (p+N)%(2*N) # get q as dual of p ', 'q = p + N if p < N else p - N # get q as dual of p ', SM)
+
+# ------------------------------------------------------------------ C05
+SP, ST, SO = 'stabilizer_project', 'stabilizer_projection_trace', 'stabilizer_postselection'
+M('c05-project-pivot', ['C05'], PU, 'if j < N + r: # if gs_stb[j] is not an active destabilizer', 'if j < N: # if gs_stb[j] is not an active destabilizer', ['R9.pivot'], SP)
+M('c05-project-r', ['C05', 'C12'], PU, '                r -= 1 # rank will reduce under extension\n', '', ['R9.block'], SP)
+M('c05-project-extend', ['C05'], PU, 'if not r <= j < N: # if gs_stb[j] is a standby operator', 'if not r <= j <= N: # if gs_stb[j] is a standby operator', ['R9.extend'], SP)
+M('c05-project-mod', ['C05'], PU, 'gs_stb[j] = (gs_stb[j] + gs_stb[p])%2 # update gs_stb[j] to commute with gs_obs[k]', 'gs_stb[j] = (gs_stb[j] + gs_stb[p]) # update gs_stb[j] to commute with gs_obs[k]', ['R7d'], SP)
+M('c05-trace-swap', ['C05', 'C07'], PU, 'gs_stb[numpy.array([p,r])] = gs_stb[numpy.array([r,p])] # swap p,r', 'gs_stb[numpy.array([p,r])] = gs_stb[numpy.array([r,q])] # swap p,r', ['R9.block'], ST)
+M('c05-trace-phase-at', ['C05', 'C07'], PU, '            ps_stb[p] = ps_obs[k]\n            trace = trace/2.', '            ps_stb[q] = ps_obs[k]\n            trace = trace/2.', ['R9.block'], ST)
+M('c05-post-pivot', ['C05', 'C14'], PU, '                if j < N: # if gs_stb[j] is not an active destabilizer', '                if j <= N: # if gs_stb[j] is not an active destabilizer', ['R9.pivot'], SO)
+M('c05-post-order', ['C05', 'C14'], PU, '        gs_stb[q] = gs_stb[p] # move gs_stb[p] to gs_stb[q]\n        gs_stb[p] = gs_ob # add gs_obs[k] to gs_stb[p]', '        gs_stb[p] = gs_ob # add gs_obs[k] to gs_stb[p]\n        gs_stb[q] = gs_stb[p] # move gs_stb[p] to gs_stb[q]', ['R9.block'], SO)
+M('c05-tc-project-guard', ['C05', 'C13'], TU, 'p = torch.logical_and(acqs, indices<N+r).nonzero()\n        if p.shape[0] > 0:\n            p = p[0].item()\n            acqs[0:p+1] = False', 'p = torch.logical_and(acqs, indices<N).nonzero()\n        if p.shape[0] > 0:\n            p = p[0].item()\n            acqs[0:p+1] = False', ['R9.pivot'])
+M('c05-tc-project-r', ['C05', 'C13'], TU, '            if not (r <= p < N):\n                r -= 1 # rank will reduce under extension', '            if not (r < p < N):\n                r -= 1 # rank will reduce under extension', ['R9.block'])
+M('c05-random-signs', ['C05', 'C16'], PS, '    gs = random_clifford(N) # shape (2*N, 2*N), mapping matrix\n    ps = 2 * numpy.random.randint(0,2,2*N)', '    gs = random_clifford(N) # shape (2*N, 2*N), mapping matrix\n    ps = numpy.random.randint(0,2,2*N)', ['R3a'])
+M('c05-one-state', ['C05'], PS, '    ps = (2*numpy.ones(2*N)).astype(int)', '    ps = (numpy.ones(2*N)).astype(int)', ['R3a'])
+M('c05-getprob-bit', ['C05', 'C07'], PS, 'readout_state.ps[:self.N]=2*readout', 'readout_state.ps[:self.N]=readout', ['R3a'])
+M('c05-tostate-r', ['C05', 'C12'], PS, '        return StabilizerState(gs, ps).set_r(r)', '        return StabilizerState(gs, r).set_r(r)', ['R2', 'R4d'])
+M('c05-measurelayer-r', ['C05', 'C14'], PC, '        obj.gs, obj.ps, obj.r, tmp_out, tmp_log2prob = \\', '        obj.gs, obj.ps, tmp_r, tmp_out, tmp_log2prob = \\', ['R5'])
+M('c05-state-r', ['C05', 'C12'], PS, '    state.gs, state.r = stabilizer_project(state.gs, numpy.flipud(stabilizers.gs), state.r)', '    state.gs, _ = stabilizer_project(state.gs, numpy.flipud(stabilizers.gs), state.r)', ['R5'])
+M('c05-setr', ['C05'], PS, "        self.r = 0 if r is None else r\n        return self", "        self.r = 0\n        return self", ['R2.set_r', 'R4d'])
+M('c05-tomap-swap', ['C05', 'C12'], PS, '        gs, ps = state_to_map(self.gs, self.ps)\n        return CliffordMap(gs, ps)', '        ps, gs = state_to_map(self.gs, self.ps)\n        return CliffordMap(gs, ps)', ['R2'])
